@@ -161,7 +161,18 @@ class Grid(object):
         os.urandom = self._urandom
         import random
         random.seed(self.ch.u64("urandom", "python-random"))     # BackoffAgent jitter etc.
-        ctp._DISABLED = True
+        # CPU thread pool (DESIGN §2.4): the shipped synchronous test switch, or the simulated pool
+        self.threads = None
+        self.set_threads((netcfg or {}).get("threads"))
+
+    def set_threads(self, mode):
+        if mode == "async":
+            if self.threads is None:
+                from sim.threads import SimThreadPool
+                self.threads = SimThreadPool(R, self.ch)
+            self.threads.install()
+        else:
+            ctp._DISABLED = True
 
     # seams -----------------------------------------------------------------------
     def _urandom(self, n):
